@@ -100,3 +100,134 @@ def parse_M(out, name="M"):
     # the value ends at the line that starts with '     :' (the type)
     val = rest.split("\n     :", 1)[0]
     return " ".join(val.split())
+
+
+# ---------------------------------------------------------------- template data (Model/Template.v)
+
+def coq_str(s):
+    """a Coq string term for arbitrary text"""
+    if all(32 <= ord(ch) < 127 and ch != '"' for ch in s):
+        return '"%s"' % s
+    return "(txt [%s]%%nat)" % "; ".join(str(b) for b in s.encode("utf-8", "replace"))
+
+
+def ctxt(d):
+    """the record harness/cmd/dump/tmpldata.go writes -> a Model.Template.ctxt term"""
+    leaves = "; ".join("(%s, %s)" % (coq_str(k), coq_str(v)) for k, v in sorted((d.get("Leaves") or {}).items()))
+    lists = "; ".join("(%s, [%s])" % (coq_str(k), "; ".join("(%s, %s)" % (coq_str(it["Key"]), ctxt(it["Ctx"])) for it in v))
+                      for k, v in sorted((d.get("Lists") or {}).items()))
+    bools = "; ".join("(%s, %s)" % (coq_str(k), b(v)) for k, v in sorted((d.get("Bools") or {}).items()))
+    return "(Ctx [%s] [%s] [%s])" % (leaves, lists, bools)
+
+
+def render_v(cases):
+    """cases: list of (template name, data record, text Go wrote)"""
+    lines = [HEADER, "From Coq Require Import String Ascii.\nFrom Inkfem Require Import Model.Template Gen.GenTemplates Proofs.TemplateProofs.",
+             "Definition txt (l : list nat) : string := string_of_list_ascii (map ascii_of_nat l).", "Local Open Scope string_scope."]
+    for k, (tm, data, text) in enumerate(cases):
+        lines.append("Definition data_%d : ctxt :=\n  %s." % (k, ctxt(data)))
+        lines.append("Definition text_%d : string := %s." % (k, coq_str(text)))
+        lines.append("Definition doc_%d := %s." % (k, DOCS[tm][1](data)))
+    lines.append("Definition M := Eval vm_compute in\n  flat_map (fun p => map (fun m => (fst p, m)) (snd p)) (indexed [%s])." % "; ".join(
+        "app (cmp_render %s data_%d text_%d) (cmp_spec (%s doc_%d) text_%d)" % (tm, k, k, DOCS[tm][0], k, k) for k, (tm, data, text) in enumerate(cases)))
+    lines.append("Print M.")
+    return "\n".join(lines) + "\n"
+
+
+MAP_BACKED = {"GetAllNodes": lambda c: c["Leaves"].get("GetID", "") + " ->",
+              "GetMaterialsByName": lambda c: "'" + c["Leaves"].get("Name", "") + "' ->",
+              "GetSectionsByName": lambda c: "'" + c["Leaves"].get("Name", "") + "' ->"}
+
+
+def canon_template_data(d):
+    """nodes, materials and sections come out of Go maps: their order is not part of the content.  The
+    elements of those lists are put in the order of the lines they print (each prints one line that
+    starts with its id / quoted name)"""
+    d = dict(d, Lists=dict(d.get("Lists") or {}))
+    for path, key in MAP_BACKED.items():
+        if path in d["Lists"]:
+            d["Lists"][path] = sorted(d["Lists"][path], key=lambda it: key(it["Ctx"]))
+    return d
+
+
+def canon_written_text(text):
+    """the same on the written text: the lines of the |nodes|, |materials| and |sections| blocks sorted"""
+    out, lines, k = [], text.split("\n"), 0
+    while k < len(lines):
+        out.append(lines[k])
+        if lines[k].strip() in ("|nodes|", "|materials|", "|sections|"):
+            j = k + 1
+            while j < len(lines) and lines[j].strip() != "":
+                j += 1
+            out += sorted(lines[k + 1:j])
+            k = j
+        else:
+            k += 1
+    return "\n".join(out)
+
+
+def _leaf(c, k):
+    return coq_str((c.get("Leaves") or {}).get(k, "<missing>"))
+
+
+def _items(c, k):
+    return [it["Ctx"] for it in (c.get("Lists") or {}).get(k, [])]
+
+
+def _strlist(c, k):
+    return "[%s]" % "; ".join(_leaf(x, "String") for x in _items(c, k))
+
+
+def sol_doc(d):
+    """the harness record of a Solution -> a TemplateProofs.sol_doc term"""
+    reac = ["{| sr_id := %s; sr_fx := %s; sr_fy := %s; sr_mz := %s |}" % (coq_str(it["Key"]), _leaf(it["Ctx"], "Fx"), _leaf(it["Ctx"], "Fy"), _leaf(it["Ctx"], "Mz"))
+            for it in (d.get("Lists") or {}).get("NodeReactions", [])]
+    bars = []
+    for c in _items(d, "Elements"):
+        bars.append("{| sb_id := %s; sb_n1 := %s; sb_l1 := %s; sb_n2 := %s; sb_l2 := %s; sb_mat := %s; sb_sec := %s;\n  sb_gdx := %s; sb_gdy := %s; sb_grz := %s; sb_ldx := %s; sb_ldy := %s; sb_lrz := %s;\n  sb_axial := %s; sb_shear := %s; sb_bend := %s; sb_tf := %s |}" % (
+            _leaf(c, "GetID"), _leaf(c, "StartNodeID"), _leaf(c, "StartLink"), _leaf(c, "EndNodeID"), _leaf(c, "EndLink"), _leaf(c, "Material.Name"), _leaf(c, "Section.Name"),
+            _strlist(c, "GlobalXDispl"), _strlist(c, "GlobalYDispl"), _strlist(c, "GlobalZRot"), _strlist(c, "LocalXDispl"), _strlist(c, "LocalYDispl"), _strlist(c, "LocalZRot"),
+            _strlist(c, "AxialStress"), _strlist(c, "ShearForce"), _strlist(c, "BendingMoment"), _strlist(c, "BendingMomentTopFiberAxialStress")))
+    return "{| sd_major := %s; sd_minor := %s; sd_reactions := [%s]; sd_bars := [%s] |}" % (
+        _leaf(d, "Metadata.MajorVersion"), _leaf(d, "Metadata.MinorVersion"), "; ".join(reac), ";\n ".join(bars))
+
+
+def _mat(c):
+    return "{| wm_name := %s; wm_density := %s; wm_young := %s; wm_shear := %s; wm_poisson := %s; wm_yield := %s; wm_ultimate := %s |}" % tuple(
+        _leaf(c, k) for k in ("Name", "Density", "YoungMod", "ShearMod", "PoissonRatio", "YieldStrength", "UltimateStrength"))
+
+
+def _sec(c):
+    return "{| ws_name := %s; ws_area := %s; ws_istrong := %s; ws_iweak := %s; ws_sstrong := %s; ws_sweak := %s |}" % tuple(
+        _leaf(c, k) for k in ("Name", "Area", "IStrong", "IWeak", "SStrong", "SWeak"))
+
+
+def pre_doc(d):
+    nodes = ["{| wn_id := %s; wn_px := %s; wn_py := %s; wn_cons := %s; wn_dofs := %s |}" % tuple(_leaf(c, k) for k in ("GetID", "Position.X", "Position.Y", "ExternalConstraint", "DegreesOfFreedomNum"))
+             for c in _items(d, "GetAllNodes")]
+    bars = ["{| wb_id := %s; wb_n1 := %s; wb_l1 := %s; wb_n2 := %s; wb_l2 := %s; wb_mat := %s; wb_sec := %s; wb_count := %s; wb_nodes := %s |}" % (
+        tuple(_leaf(c, k) for k in ("GetID", "StartNodeID", "StartLink", "EndNodeID", "EndLink", "Material.Name", "Section.Name", "NodesCount")) + (_strlist(c, "Nodes"),))
+        for c in _items(d, "Elements")]
+    return "{| pd_major := %s; pd_minor := %s; pd_dofs := %s; pd_weight := %s; pd_nodes := [%s]; pd_mats := [%s]; pd_secs := [%s]; pd_bars := [%s] |}" % (
+        _leaf(d, "Metadata.MajorVersion"), _leaf(d, "Metadata.MinorVersion"), _leaf(d, "DofsCount"), b((d.get("Bools") or {}).get("IncludesOwnWeight", False)),
+        "; ".join(nodes), "; ".join(_mat(c) for c in _items(d, "GetMaterialsByName")), "; ".join(_sec(c) for c in _items(d, "GetSectionsByName")), ";\n ".join(bars))
+
+
+def def_doc(d):
+    nodes = ["{| dn_id := %s; dn_px := %s; dn_py := %s; dn_cons := %s |}" % tuple(_leaf(c, k) for k in ("GetID", "Position.X", "Position.Y", "ExternalConstraint"))
+             for c in _items(d, "GetAllNodes")]
+    bars = []
+    for c in _items(d, "Elements"):
+        cl = ["{| dc_term := %s; dc_local := %s; dc_t := %s; dc_v := %s |}" % (_leaf(x, "Term"), b((x.get("Bools") or {}).get("IsInLocalCoords", False)), _leaf(x, "T.Value"), _leaf(x, "Value"))
+              for x in _items(c, "ConcentratedLoads")]
+        dl = ["{| dd_term := %s; dd_local := %s; dd_t0 := %s; dd_v0 := %s; dd_t1 := %s; dd_v1 := %s |}" % (
+            _leaf(x, "Term"), b((x.get("Bools") or {}).get("IsInLocalCoords", False)), _leaf(x, "StartT.Value"), _leaf(x, "StartValue"), _leaf(x, "EndT.Value"), _leaf(x, "EndValue"))
+            for x in _items(c, "DistributedLoads")]
+        bars.append("{| db_id := %s; db_n1 := %s; db_l1 := %s; db_n2 := %s; db_l2 := %s; db_mat := %s; db_sec := %s; db_cl := [%s]; db_dl := [%s] |}" % (
+            tuple(_leaf(c, k) for k in ("GetID", "StartNodeID", "StartLink", "EndNodeID", "EndLink", "Material.Name", "Section.Name")) + ("; ".join(cl), "; ".join(dl))))
+    return "{| dd_major := %s; dd_minor := %s; dd_nodes := [%s]; dd_mats := [%s]; dd_secs := [%s]; dd_bars := [%s] |}" % (
+        _leaf(d, "Metadata.MajorVersion"), _leaf(d, "Metadata.MinorVersion"), "; ".join(nodes),
+        "; ".join(_mat(c) for c in _items(d, "GetMaterialsByName")), "; ".join(_sec(c) for c in _items(d, "GetSectionsByName")), ";\n ".join(bars))
+
+
+DOCS = {"tmpl_solution": ("spec_solution", sol_doc), "tmpl_preprocess": ("spec_preprocess", pre_doc), "tmpl_definition": ("spec_definition", def_doc)}
